@@ -24,6 +24,8 @@ impl Tier {
 }
 
 pub const DISTINCT_CAP: usize = 1 << 18;
+/// per-shard cap of the distinct-case set in the thorough tier
+pub const DISTINCT_CAP_THOROUGH: usize = 1 << 21;
 const MAX_SAMPLES: usize = 8;
 const MAX_WITNESS_PER_SIG: u64 = 1;
 const MAX_SIGS: usize = 200;
@@ -225,7 +227,19 @@ impl Ctx {
         } else {
             "release"
         };
-        let budget = std::env::var("VERIF_BUDGET").ok().and_then(|s| s.parse::<f64>().ok()).unwrap_or(1.0);
+        let mut budget = std::env::var("VERIF_BUDGET").ok().and_then(|s| s.parse::<f64>().ok()).unwrap_or(1.0);
+        // the thorough tier of the cheap properties is scaled up so that every thorough run explores
+        // for minutes, not seconds (measured on 16 cores: see DESIGN.md 11.7)
+        if tier == Tier::Thorough {
+            budget *= match prop {
+                "C17" | "C19" => 20.0,
+                "C12" | "C14" => 8.0,
+                "C16" => 6.0,
+                "C13" | "C04" => 4.0,
+                "C08" | "C09" | "C10" => 2.0,
+                _ => 1.0,
+            };
+        }
         Ctx {
             prop: prop.to_string(),
             tier,
@@ -298,7 +312,7 @@ impl Ctx {
     }
     #[inline]
     pub fn distinct(&mut self, key: u64) {
-        if self.distinct.len() < DISTINCT_CAP {
+        if self.distinct.len() < if self.tier == Tier::Thorough { DISTINCT_CAP_THOROUGH } else { DISTINCT_CAP } {
             self.distinct.insert(key);
         } else {
             self.distinct_capped = true;
